@@ -235,6 +235,8 @@ fn compare_runs(a: &Snapshot, b: &Snapshot, what: &str) -> Option<String> {
     None
 }
 
+pub const KF_EMPTY_DIR: &str = "KF-C09-empty-start-directory-emptied-again";
+
 impl Prop for C09 {
     type Case = C09Case;
     fn id(&self) -> &'static str {
@@ -254,6 +256,16 @@ impl Prop for C09 {
         if kind_change && (msg.contains("exits Code(1), expected 0") || msg.contains("Not a directory") || msg.contains("Is a directory")) {
             return Some("KF-C09-path-changes-between-file-and-directory");
         }
+        // exactly: the start tree has an empty directory in which a patch creates a file that a later patch deletes,
+        // and the two runs differ in that directory
+        let created_then_deleted = |d: &String| {
+            let pre = format!("{}/", d);
+            states.iter().any(|st| st.files.keys().any(|k| k.starts_with(&pre))) && states.last().map_or(false, |st| !st.files.keys().any(|k| k.starts_with(&pre)))
+                || (1..states.len()).any(|i| states[i - 1].files.keys().any(|k| k.starts_with(&pre)) && !states[i].files.keys().any(|k| k.starts_with(&pre)))
+        };
+        if msg.contains("directories differ") && case.ws.spec.dirs.iter().any(|d| !d.starts_with(".pc") && created_then_deleted(d)) {
+            return Some(KF_EMPTY_DIR);
+        }
         None
     }
     fn budget(&self, tier: Tier) -> (u32, usize) {
@@ -262,7 +274,33 @@ impl Prop for C09 {
     fn build(&self, ch: &mut Chooser, cx: &mut CaseCtx) -> C09Case {
         let thorough = cx.env.tier == Tier::Thorough;
         let o = WsGenOpts { fail_chance: 3, max_patches: if thorough { 12 } else { 6 }, max_files: 5, alt_name_chance: 2, allow_path_kind_change: true, ..Default::default() };
-        let ws = gen_ws(ch, cx, &o);
+        let mut ws = gen_ws(ch, cx, &o);
+        // directories that exist, empty, in the start tree where a patch is going to create a file (what happens to
+        // them when a later patch deletes that file again must not depend on how the push is split)
+        if ch.chance(1, 3) {
+            let mut added = vec![];
+            for m in &ws.metas {
+                for op in &m.ops {
+                    if op.kind == "create" && op.fail_reason.is_none() {
+                        if let Some(i) = op.new_path.rfind('/') {
+                            let dir = op.new_path[..i].to_string();
+                            let exists = ws.states[0].files.keys().any(|k| k.starts_with(&format!("{}/", dir)) || k == &dir);
+                            if !exists && !added.contains(&dir) {
+                                added.push(dir);
+                            }
+                        }
+                    }
+                }
+            }
+            if !added.is_empty() {
+                if !cx.feature(KF_EMPTY_DIR) {
+                    cx.exclude(KF_EMPTY_DIR);
+                } else {
+                    ws.spec.dirs.extend(added);
+                    ws.feat.push("empty-start-directory-where-a-patch-creates-a-file".into());
+                }
+            }
+        }
         let n = ws.metas.len();
         let goal = if ch.chance(1, 2) { n } else { ch.range(1, n) };
         // cut points
